@@ -337,7 +337,7 @@ def run(ctx):
     from . import c03
     reuse(ctx, c03.run, ("C03.map",), "C05flow", "flow-wrapper rule shared with C03: with flow preconditioning log|det dx/dz| is the wrapper's inverse log-Jacobian, "
           "which must include the flow's own data transform")
-    reuse(ctx, c04.run, ("C04.deriv", "C04.anti", "C04.acc", "C04.order", "C04.alloc", "C04.wrap"), "C05jac",
+    reuse(ctx, lambda c: c04.run(c, shared=False), ("C04.deriv", "C04.anti", "C04.acc", "C04.order", "C04.alloc", "C04.wrap"), "C05jac",
           "preconditioning-transform rule shared with C04: the kernel target adds this log-Jacobian")
 
     # MCMC target
